@@ -246,7 +246,8 @@ def env_text(kind, only=None, extras=True, modified=False):
     if only is not None:
         lines.append("zfill int = 1")      # a reference into a text without any node is C17's subject
     if kind == "custom":
-        for cu in META["custom"]:
+        # the modified environment writes the custom unit with its alternative, equivalent definition (200 cm for 2 m)
+        for cu in (META["customalt"] if modified else META["custom"]):
             lines.append(f"$unit {cu['name']} = {cu['n']} {cu['unit']}")
     toks = sorted(META["nodes"]) + (sorted(META["cnodes"]) if kind == "custom" else [])
     for t in toks:
